@@ -257,6 +257,8 @@ func (p *c01) Init(tier string, seed int64) {
 			{"(", "1", ")"}, {"[", "1", "]"}, {"{'a':", "1", "}"}, {"f(", "1", ")"}, {"-", "1", ""}, {"not ", "a", ""},
 			{"a[", "1", "]"}, {"(", "", ""}, {"[", "", ""}, {"", "1", ")"}, {"a ? ", "b", " : c"}, {"1 + ", "1", ""},
 			{"\"#{", "a", "}\""}, {"\"#{", "", ""}, {"\"#{ '", "", ""}, {"\"x#{(", "", ""}, {"", "a", "}\""}, {"\"#{\"", "", ""}, {"\"#{", "", "\""},
+			// conditionals nested in the condition position, also in the short form other Twig dialects have
+			{"(", "a", " ? b : c)"}, {"(", "a", " ?: b)"}, {"(", "a", " ? b)"}, {"(a ?: ", "b", ")"},
 		}
 		tags := []lad{
 			{"{% if a %}", "x", "{% endif %}"}, {"{% for i in a %}", "x", "{% endfor %}"}, {"{% block b %}", "x", "{% endblock %}"},
